@@ -391,6 +391,31 @@ func (env *CEnv) call(e *CExpr) SV {
 		*env.qn++
 		r := Var(fmt.Sprintf("r!q%d", *env.qn), SInt)
 		return boolSV(Forall([]*Term{r}, Implies(And(Ne(r, a.Id), Lt(r, env.wmOld)), Eq(Select(cur, r), Select(old, r)))))
+	case "framed":
+		// the frame condition of the enclosing function's modifies clause, for the current heap against the entry heap
+		x := env.x
+		if x.fc == nil || env.old == nil {
+			env.errf("framed() needs a function contract and an old state")
+		}
+		lic := x.prog.modifiesSpec(x, x.fn, x.fc)
+		var keys []string
+		for k := range env.cur {
+			keys = append(keys, k)
+		}
+		sort.Strings(keys)
+		var cs []*Term
+		for _, k := range keys {
+			cur := env.cur[k]
+			init := Var("H0."+k, cur.Sort)
+			if cur.Op == "var" && cur.Name == init.Name {
+				continue
+			}
+			if l := lic[k]; l != nil && l.whole {
+				continue
+			}
+			cs = append(cs, x.frameFormula(k, cur, init, lic[k], env.wmOld))
+		}
+		return boolSV(And(cs...))
 	case "isnil":
 		a := env.eval(e.Args[0])
 		if a.K == KSeq {
